@@ -565,6 +565,12 @@ func typedAny(d ColDesc, v any) (any, bool) {
 		case "float32":
 			return num(uint64(f32Tokens[tok]), 0, true)
 		}
+		if d.Repr == "uint" && tok == "n16" {
+			return uint16(0x8000), true
+		}
+		if d.Repr == "uint" && tok == "n32" {
+			return uint32(0x80000000), true
+		}
 		return num(intTokens(d.Repr)[tok], 0, true)
 	}
 	return nil, false
@@ -1090,7 +1096,9 @@ func (c *Coll) decode(u *commit.Buffer, chunk commit.Chunk) (out []Ev) {
 	return
 }
 
-func (c *Coll) decodeValue(d ColDesc, r *commit.Reader) any { return c.narrow(d, c.decodeValueRaw(d, r)) }
+func (c *Coll) decodeValue(d ColDesc, r *commit.Reader) any {
+	return c.narrow(d, c.decodeValueRaw(d, r))
+}
 
 func (c *Coll) decodeValueRaw(d ColDesc, r *commit.Reader) any {
 	size := len(r.Bytes())
